@@ -178,6 +178,18 @@ func (p *vChoicePartitioner) Partition(m *ProducerMessage, n int32) (int32, erro
 }
 func (p *vChoicePartitioner) RequiresConsistency() bool { return p.consistent }
 
+// a partitioner that decides per message (DynamicConsistencyPartitioner), like the hash family
+type vDynPartitioner struct {
+	vChoicePartitioner
+	perMessage bool
+	asked      int
+}
+
+func (p *vDynPartitioner) MessageRequiresConsistency(m *ProducerMessage) bool {
+	p.asked++
+	return p.perMessage
+}
+
 // C17: the producer honours the partitioner's choice: consistency-requiring messages are
 // offered all partitions, the others only writable ones; the message goes to partitions[choice];
 // an out-of-range choice, a partitioner error or an empty list fail the message.
@@ -197,11 +209,21 @@ func verifHarness_C17_partitionMessage() {
 	if vChoose("partitionerFails", 2) == 1 {
 		part.err = errVConn
 	}
-	tp := &topicProducer{parent: &asyncProducer{client: client, conf: conf}, topic: "t", breaker: vBreaker(), partitioner: part}
+	var partitioner Partitioner = part
+	wantConsistent := part.consistent
+	if vChoose("decidesPerMessage", 2) == 1 {
+		// the per-message answer alone decides, whatever the static answer is
+		dyn := &vDynPartitioner{perMessage: vChoose("messageRequiresConsistency", 2) == 1}
+		dyn.vChoicePartitioner = *part
+		part = &dyn.vChoicePartitioner
+		partitioner = dyn
+		wantConsistent = dyn.perMessage
+	}
+	tp := &topicProducer{parent: &asyncProducer{client: client, conf: conf}, topic: "t", breaker: vBreaker(), partitioner: partitioner}
 	msg := &ProducerMessage{Topic: "t", Key: StringEncoder("k"), Partition: -5}
 	err := tp.partitionMessage(msg)
 	offeredList := writable
-	if part.consistent {
+	if wantConsistent {
 		offeredList = all
 		vAssert(client.askedAll == 1 && client.askedWritable == 0, "consistent-messages-are-offered-all-partitions")
 	} else {
@@ -223,5 +245,53 @@ func verifHarness_C17_partitionMessage() {
 		vAssert(msg.Partition == -5, "failed-message-not-assigned-anywhere")
 	}
 	vCover("out-of-range", n > 0 && part.err == nil && part.choice >= n)
+	vReach()
+}
+
+// C17: the built-in hash partitioners ask for consistency per message: keyed messages are
+// offered every partition (so the key→partition map is stable), keyless ones only partitions
+// that currently have a leader.
+func verifHarness_C17_hashFamilyConsistency() {
+	conf := NewConfig()
+	cl := vNewCluster(conf, 1, 1, 0)
+	all := []int32{4, 7, 9}
+	var writable []int32
+	for _, p := range all {
+		if vChoose("hasLeader", 2) == 1 {
+			writable = append(writable, p)
+		}
+	}
+	client := &vPartsClient{vFakeClient: vFakeClient{conf: conf, cl: cl}, all: all, writable: writable}
+	var part Partitioner
+	switch vChoose("constructor", 3) {
+	case 0:
+		part = NewHashPartitioner("t")
+	case 1:
+		part = NewReferenceHashPartitioner("t")
+	case 2:
+		part = NewCustomPartitioner()("t")
+	}
+	tp := &topicProducer{parent: &asyncProducer{client: client, conf: conf}, topic: "t", breaker: vBreaker(), partitioner: part}
+	msg := &ProducerMessage{Topic: "t", Partition: -5}
+	keyed := vChoose("keyed", 2) == 1
+	if keyed {
+		msg.Key = ByteEncoder(vBytes("key", 1))
+	}
+	err := tp.partitionMessage(msg)
+	if keyed {
+		vAssert(client.askedAll == 1 && client.askedWritable == 0, "keyed-messages-are-offered-all-partitions")
+		vAssert(err == nil && (msg.Partition == 4 || msg.Partition == 7 || msg.Partition == 9), "keyed-message-goes-to-a-partition-of-the-topic")
+	} else {
+		vAssert(client.askedAll == 0 && client.askedWritable == 1, "keyless-messages-are-offered-writable-partitions-only")
+		if len(writable) == 0 {
+			vAssert(err == ErrLeaderNotAvailable, "nothing-writable-is-an-error")
+		} else {
+			ok := false
+			for _, p := range writable {
+				ok = ok || msg.Partition == p
+			}
+			vAssert(err == nil && ok, "keyless-message-goes-to-a-writable-partition")
+		}
+	}
 	vReach()
 }
